@@ -298,7 +298,15 @@ def fmtRef (d : Desc) : String := s!"{d.dig}/{d.mt}/{d.size}/{d.atype}/{d.rann}"
     dropped.  The loop is `PxS.split` (the transcription of referrer.go:217-268) at the JSON size function. -/
 def referrerSplit (limit : Nat) (ds : List Desc) : List (List Desc) := PxS.split respSize limit ds
 
-def pageOf (pageStr : String) : Nat := match atoi? pageStr with | some i => if i < 0 then 0 else i.toNat | none => 0
+/-- `page, _ := strconv.Atoi(…)` with the error dropped: a syntax error gives 0, a value out of the range of int64 gives the
+    nearest bound (Atoi returns it together with its range error); negative values are then set to 0 by the handler -/
+def pageOf (pageStr : String) : Nat :=
+  let neg := pageStr.startsWith "-"
+  let body := if pageStr.startsWith "+" ∨ neg then (pageStr.drop 1).toString else pageStr
+  if body.isEmpty ∨ !body.all Char.isDigit then 0 else
+  match body.toNat? with
+  | none => 0
+  | some k => if neg then 0 else min k 9223372036854775807
 def refsBody (ds : List Desc) : String := "[" ++ ",".intercalate (ds.map fmtRef) ++ "]"
 def emptyRefs : Resp := { status := 200, ct := "ocii", body := "[]" }
 /-- the Link to the next page repeats the query of the request with `cache` and `page` set: the filter travels with it -/
